@@ -1,6 +1,8 @@
 //go:build verif
 
-// Contracts for property C09 (jobs, steps and expressions are checked independently): every rule
+// Contracts for property C09 (jobs, steps and expressions are checked independently; the same resets
+// carry C02 - jobs are visited in map order, so state leaking from one job into the next makes the
+// output depend on that order - and C20 for the shell defaults of the external-linter rules): every rule
 // that keeps per-job or per-workflow state re-establishes its idle state in the Post callback, and
 // the Pre callback establishes a state that is a function of the visited node only (given the idle
 // state). The functions are anchors: deleting a reset method is reported. Verified by govc.
@@ -8,52 +10,52 @@
 package actionlint
 
 //@ func (*RuleExpression).VisitJobPost
-//@   props C09
+//@   props C09 C02
 //@   anchor
 //@   ensures rule.matrixTy == nil && rule.stepsTy == nil && rule.needsTy == nil
 //@ func (*RuleExpression).VisitWorkflowPost
-//@   props C09
+//@   props C09 C02
 //@   anchor
 //@   ensures rule.workflow == nil
 //@ func (*RuleExpression).VisitJobPre
-//@   props C09
+//@   props C09 C02
 //@   anchor
 //@   ensures rule.stepsTy != nil && fresh(rule.stepsTy) && rule.needsTy != nil && fresh(rule.needsTy)
 //@   ensures (n.Strategy == nil || n.Strategy.Matrix == nil) ==> rule.matrixTy == old(rule.matrixTy)
 
 //@ func (*RuleShellName).VisitJobPost
-//@   props C09
+//@   props C09 C02
 //@   anchor
 //@   ensures rule.platform == 0
 //@ func (*RuleShellName).VisitJobPre
-//@   props C09
+//@   props C09 C02
 //@   anchor
 //@   ensures n.RunsOn == nil ==> rule.platform == old(rule.platform)
 
 //@ func (*RuleShellcheck).VisitJobPost
-//@   props C09
+//@   props C09 C02 C20
 //@   anchor
 //@   ensures rule.jobShell == "" && rule.runnerShell == ""
 //@ func (*RuleShellcheck).VisitWorkflowPost
-//@   props C09
+//@   props C09 C02 C20
 //@   anchor
 //@   ensures rule.workflowShell == ""
 
 //@ func (*RulePyflakes).VisitJobPost
-//@   props C09
+//@   props C09 C02 C20
 //@   anchor
 //@   ensures rule.jobShellIsPython == 0
 //@ func (*RulePyflakes).VisitWorkflowPost
-//@   props C09
+//@   props C09 C02 C20
 //@   anchor
 //@   ensures rule.workflowShellIsPython == 0
 
 //@ func (*RuleID).VisitJobPost
-//@   props C09
+//@   props C09 C02
 //@   anchor
 //@   ensures rule.seen == nil
 //@ func (*RuleID).VisitJobPre
-//@   props C09
+//@   props C09 C02
 //@   anchor
 //@   ensures rule.seen != nil && fresh(rule.seen)
 
